@@ -41,7 +41,9 @@ RULE = ('one case = one application (context classes C<B<A, a class E used both 
         'pre-empted by a whole registration at a chosen internal step (after the cache reference read / before the '
         'j-th adapter lookup / with the lock held before the dict write) of its first or second _find_views call, '
         'registration (new view, replacement, predicate sibling -> multiview, exception view, notfound view), '
-        'registration pre-empted after its m-th adapter mutation by a whole request, burst of distinct missing URLs}; '
+        'registration pre-empted after its m-th adapter mutation by a whole request, burst of distinct missing URLs, burst of 300 distinct odd requests '
+        '(URLs / Accept headers / query strings / header values) with a container census}; views carry accept= and request_method predicates, '
+        'requests carry Accept headers from a pool and a method, registrations add members to or replace members of existing multiviews; '
         'a case is non-trivial when the same (context, view name) is looked up through two request interfaces, a registration lands inside an in-progress lookup or a lookup lands inside a '
         'registration, or a request is served from a warm cache entry, or a registration follows a warm-up of the same '
         'URL; distinct = distinct canonical case JSON')
@@ -109,6 +111,10 @@ def apply_reg(config, r):
             kw['request_param'] = r['param']
         if _route(r):
             kw['route_name'] = _route(r)
+        if r.get('accept'):
+            kw['accept'] = r['accept']
+        if r.get('method'):
+            kw['request_method'] = r['method']
         config.add_view(view_for(r['tag']), **kw)
     config.commit()
 
@@ -138,12 +144,22 @@ def req_path(q):
     qs = ['ctx=' + q.get('ctx', 'C')]
     if q.get('q'):
         qs.append(q['q'] + '=1')
+    if q.get('xq'):
+        qs.append(q['xq'] + '=1')
     return path + '?' + '&'.join(qs)
 
 
 def send(app, q):
     try:
-        resp = Request.blank(req_path(q)).get_response(app)
+        headers = {}
+        if q.get('accept') is not None:
+            headers['Accept'] = q['accept']
+        if q.get('hdr') is not None:
+            headers['X-Odd'] = q['hdr']
+        req = Request.blank(req_path(q), headers=headers)
+        if q.get('method'):
+            req.method = q['method']
+        resp = req.get_response(app)
         return [resp.status_int, resp.text[:24].split('\n')[0]]
     except Exception as e:                                        # no exception view: propagates to the server
         return ['raise', type(e).__name__]
@@ -174,7 +190,7 @@ _orig_find_views = pview._find_views
 
 def _w_find_views(registry, request_iface, context_iface, view_name, view_types=None, view_classifier=None):
     live = _LIVE.get(id(registry))
-    if live is None or live.in_injection:
+    if live is None or live.in_injection or not live.recording:
         return _orig_find_views(registry, request_iface, context_iface, view_name, view_types=view_types,
                                 view_classifier=view_classifier)
     call = {'q': (view_classifier or IViewClassifier, request_iface, context_iface, view_name, view_types or VIEW_TYPES),
@@ -268,6 +284,7 @@ class Live:
         d.live = self
         reg._view_lookup_cache = d
         self.deadlock = False
+        self.recording = True
         self.ilock = ILock(reg._lock, self)
         reg._lock = self.ilock
         _LIVE[id(reg)] = self
@@ -494,8 +511,91 @@ def _run_op(live, i, op, kind, before_regs, trace, viol):
                 if len(set(sizes[1:])) > 1 or (len(sizes) > 1 and sizes[-1] > sizes[0]):
                     viol.append({'at': i, 'kind': 'cache-growth', 'impl': sizes, 'expected': 'constant after the first miss',
                                  'detail': 'op %d: len(registry._view_lookup_cache) over %d distinct missing URLs: %r' % (i, op['n'], sizes)})
+            elif kind == 'burst':
+                # N distinct failing/odd requests: nothing reachable from the view machinery may grow with N
+                allcalls, c50 = [], None
+                live.recording = True
+                for n in range(BURST_LARGE):
+                    q = burst_request(op['req'], op['kind'], i, n)
+                    if n == 10:
+                        live.recording = False              # the model sees the first ten requests only
+                    resp, calls, _ = live.do_get(q)
+                    allcalls += calls
+                    if n < 10 or n % 50 == 0:
+                        exp = fresh_response(before_regs, q)
+                        if resp != exp:
+                            viol.append({'at': i, 'kind': 'response', 'impl': resp, 'expected': [exp],
+                                         'detail': 'op %d: odd request %d (%s) answers %r, fresh application %r' % (i, n, op['kind'], resp, exp)})
+                    if n + 1 == BURST_SMALL:
+                        c50 = census(live.reg)
+                live.recording = True
+                c300 = census(live.reg)
+                trace.append({'op': 'burst', 'calls': allcalls, 'census': [c50, c300]})
+                if c300 - c50 > BURST_SLACK:
+                    viol.append({'at': i, 'kind': 'growth', 'impl': [c50, c300], 'expected': 'census(300) - census(50) <= %d' % BURST_SLACK,
+                                 'detail': 'op %d: the containers reachable from the view machinery hold %d entries after %d and %d after %d distinct odd requests (%s): they grow with the traffic'
+                                           % (i, c50, BURST_SMALL, c300, BURST_LARGE, op['kind'])})
             else:
                 raise ValueError('bad op %r' % (op,))
+
+
+def census(registry, max_depth=8):
+    """deterministic count of the entries of all plain containers (list, tuple, dict, set, frozenset, deque) reachable
+    from the registry's view machinery: the values of `_view_lookup_cache` and every object registered as IView /
+    ISecuredView / IMultiView (MultiView instances and derived view functions: their `__dict__` and closure cells),
+    each object once, to a bounded depth; leaves (str, numbers, interfaces, classes, modules) are not entered"""
+    import collections, types
+    seen, total = set(), 0
+    roots = [list(registry._view_lookup_cache.values())]
+    roots += [a.factory for a in registry.registeredAdapters() if a.provided in VIEW_TYPES]
+    stack = [(r, 0) for r in roots]
+    while stack:
+        o, d = stack.pop()
+        if id(o) in seen or d > max_depth:
+            continue
+        seen.add(id(o))
+        if isinstance(o, (str, bytes, int, float, bool, type(None), type, types.ModuleType)) or isinstance(o, Interface.__class__):
+            continue
+        if isinstance(o, dict):
+            total += len(o)
+            stack += [(v, d + 1) for v in o.values()] + [(k, d + 1) for k in o.keys()]
+        elif isinstance(o, (list, tuple, set, frozenset, collections.deque)):
+            total += len(o)
+            stack += [(v, d + 1) for v in o]
+        else:
+            mod = getattr(type(o), '__module__', '') or ''
+            if type(o).__name__ in ('Registry', 'Configurator', 'Introspector') or mod.startswith('zope.'):
+                continue                                    # not view machinery: the registry itself, zope internals
+            dd = getattr(o, '__dict__', None)
+            if isinstance(dd, dict) and (isinstance(o, (types.FunctionType, types.MethodType)) or mod.startswith('pyramid.')
+                                         or mod.startswith('harness')):
+                stack.append((dd, d + 1))
+            for cell in (getattr(o, '__closure__', None) or ()):
+                try:
+                    stack.append((cell.cell_contents, d + 1))
+                except ValueError:
+                    pass
+            f = getattr(o, '__func__', None)
+            if f is not None:
+                stack.append((f, d + 1))
+    return total
+
+
+BURST_SMALL, BURST_LARGE, BURST_SLACK = 50, 300, 8
+
+
+def burst_request(base, kind, i, n):
+    q = dict(base)
+    if kind == 'url':
+        q['name'] = 'zb%d_%d' % (i, n)
+        q.pop('route', None)
+    elif kind == 'accept':
+        q['accept'] = 'application/x-odd%d;q=0.%d' % (n, n % 9 + 1)
+    elif kind == 'query':
+        q['xq'] = 'zq%d' % n
+    else:
+        q['hdr'] = 'odd-%d' % n
+    return q
 
 
 def collisions(trace):
@@ -586,7 +686,7 @@ def to_model(trace, live):
     for t in trace:
         if t['op'] == 'get':
             add_calls(t['calls'], t.get('armed'), t['fired'])
-        elif t['op'] == 'misses':
+        elif t['op'] in ('misses', 'burst'):
             add_calls(t['calls'], None, False)
         elif t['op'] == 'reg' or (t['op'] == 'split' and not t['fired']):
             all_mods.extend(t['mods'])
@@ -657,6 +757,9 @@ INJ_POINTS = ['probe', 'write'] + list(range(0, 30))
 
 
 ROUTES = [None, None, None, None, None, 'g', 'g', 'g', 'r']
+OFFERS = ['text/html', 'application/json', 'text/plain']
+ACCEPTS = [None, None, None, 'application/json', 'application/json', 'text/html', 'text/html, application/json;q=0.5',
+           '*/*', 'image/png', 'text/*;q=0.3, application/json;q=0.7']
 
 
 def gen_reg(rng, tag, allow_e=True):
@@ -674,13 +777,20 @@ def gen_reg(rng, tag, allow_e=True):
     rt = rng.choice(ROUTES)
     if rt:
         reg['route'] = rt
+    if rng.random() < 0.3:
+        reg['accept'] = rng.choice(OFFERS)
+    if rng.random() < 0.25:
+        reg['method'] = rng.choice(['GET', 'POST'])
     return reg
 
 
 def gen_req(rng, earlier, allow_e=True):
     r0 = rng.random()
     if earlier and r0 < 0.35:
-        return dict(rng.choice(earlier))
+        q = dict(rng.choice(earlier))
+        if rng.random() < 0.3:                            # same URL and the same Accept header string, other method
+            q['method'] = 'POST' if q.get('method') != 'POST' else 'GET'
+        return q
     if earlier and r0 < 0.65:
         # the same context and view name through another request interface
         q = dict(rng.choice(earlier))
@@ -703,7 +813,36 @@ def gen_req(rng, earlier, allow_e=True):
         q['route'] = rt
     if rng.random() < 0.3:
         q['q'] = rng.choice(['p', 'q'])
+    a = rng.choice(ACCEPTS)
+    if a:
+        q['accept'] = a
+    if rng.random() < 0.25:
+        q['method'] = 'POST'
     return q
+
+
+def gen_sibling(rng, tag, regs):
+    """a registration for the slot of an earlier registration: a member added to its multiview (other predicates,
+    with or without accept) or a replacement of that member (identical predicates: same phash)"""
+    views = [r for r in regs if r.get('kind', 'view') == 'view']
+    if not views:
+        return None
+    reg = dict(rng.choice(views))
+    reg['tag'] = tag
+    r = rng.random()
+    if r < 0.35:
+        return reg                                        # replacement
+    for k in ('param', 'accept', 'method'):
+        reg.pop(k, None)
+    if r < 0.6:
+        reg['method'] = rng.choice(['POST', 'GET'])      # a member without accept
+    elif r < 0.85:
+        reg['accept'] = rng.choice(OFFERS)
+        if rng.random() < 0.5:
+            reg['method'] = rng.choice(['POST', 'GET'])
+    else:
+        reg['param'] = rng.choice(['p', 'q'])
+    return reg
 
 
 def gen_inject(rng, tag, req, allow_e):
@@ -723,39 +862,93 @@ def gen_case(rng, maxops=8):
         tagn[0] += 1
         return 'v%d' % tagn[0]
     init = [gen_reg(rng, tag(), allow_e) for _ in range(rng.choice([0, 1, 1, 2, 2, 3]))]
+    if init and rng.random() < 0.5:
+        s = gen_sibling(rng, tag(), init)                 # start with a multiview
+        if s:
+            init.append(s)
+    regs_all = list(init)
     ops, earlier = [], []
     n = rng.randint(2, maxops)
+
+    def aimed_reg(q):
+        reg = None
+        if regs_all and rng.random() < 0.45:
+            reg = gen_sibling(rng, tag(), regs_all)
+        if reg is None:
+            reg = gen_reg(rng, tag(), allow_e)
+            if q is not None and reg.get('kind') == 'view' and q.get('name') not in ('boom', 'nope') and rng.random() < 0.7:
+                reg['name'] = q.get('name', '')
+        regs_all.append(reg)
+        return reg
+
     while len(ops) < n:
         r = rng.random()
         if r < 0.30:
             q = gen_req(rng, earlier, allow_e)
             earlier.append(q)
             ops.append({'op': 'get', 'req': q})
-        elif r < 0.55:
+        elif r < 0.52:
             q = gen_req(rng, earlier, allow_e)
             earlier.append(q)
-            ops.append({'op': 'get', 'req': q, 'inject': gen_inject(rng, tag(), q, allow_e)})
+            inj = gen_inject(rng, tag(), q, allow_e)
+            if regs_all and rng.random() < 0.35:
+                inj['reg'] = gen_sibling(rng, inj['reg']['tag'], regs_all) or inj['reg']
+            regs_all.append(inj['reg'])
+            ops.append({'op': 'get', 'req': q, 'inject': inj})
             if rng.random() < 0.7 and len(ops) < n:
                 ops.append({'op': 'get', 'req': dict(q)})
         elif r < 0.72:
-            reg = gen_reg(rng, tag(), allow_e)
-            if earlier and reg.get('kind') == 'view' and rng.random() < 0.6:
-                e = rng.choice(earlier)
-                if e.get('name') not in ('boom', 'nope'):
-                    reg['name'] = e.get('name', '')
-            ops.append({'op': 'reg', 'reg': reg})
-        elif r < 0.90:
+            ops.append({'op': 'reg', 'reg': aimed_reg(rng.choice(earlier) if earlier else None)})
+            if earlier and rng.random() < 0.7 and len(ops) < n:
+                q = dict(rng.choice(earlier))             # the same request (same Accept string) after the registration
+                if rng.random() < 0.3:
+                    q['method'] = 'POST' if q.get('method') != 'POST' else 'GET'
+                ops.append({'op': 'get', 'req': q})
+        elif r < 0.88:
             q = gen_req(rng, earlier, allow_e)
             earlier.append(q)
-            reg = gen_reg(rng, tag(), allow_e)
-            if reg.get('kind') == 'view' and q.get('name') not in ('boom', 'nope') and rng.random() < 0.7:
-                reg['name'] = q.get('name', '')
-            ops.append({'op': 'split', 'reg': reg, 'after': rng.choice([0, 0, 1, 1, 2, 3]), 'req': q})
+            ops.append({'op': 'split', 'reg': aimed_reg(q), 'after': rng.choice([0, 0, 1, 1, 2, 3]), 'req': q})
             if rng.random() < 0.7 and len(ops) < n:
                 ops.append({'op': 'get', 'req': dict(q)})
-        else:
+        elif r < 0.975:
             ops.append({'op': 'misses', 'n': rng.choice([3, 5, 8]), 'ctx': rng.choice(['A', 'C'])})
+        else:
+            base = dict(rng.choice(earlier)) if earlier else {'name': 'x', 'ctx': 'C'}
+            ops.append({'op': 'burst', 'kind': rng.choice(['url', 'accept', 'accept', 'query', 'header']), 'req': base})
     return {'init': init, 'ops': ops}
+
+
+def enumerate_multiview():
+    """small-scope enumeration on ONE slot (no context, name 'x') holding a multiview with accept= members: (optional
+    request with Accept header H, method m) ; a registration that adds a member without accept / with accept, or
+    replaces a member (same phash) ; the request with the SAME header string H again, GET and POST ; and one burst of
+    distinct odd Accept headers against the multiview"""
+    members = {'html': {'kind': 'view', 'tag': 'html', 'context': None, 'name': 'x', 'accept': 'text/html', 'method': 'GET'},
+               'json': {'kind': 'view', 'tag': 'json', 'context': None, 'name': 'x', 'accept': 'application/json', 'method': 'GET'},
+               'plain': {'kind': 'view', 'tag': 'plain', 'context': None, 'name': 'x', 'param': 'p'}}
+    inits = [[members['html'], members['json']], [members['json'], members['plain']], [members['html'], members['json'], members['plain']]]
+    regs = [{'kind': 'view', 'tag': 'post', 'context': None, 'name': 'x', 'method': 'POST'},
+            {'kind': 'view', 'tag': 'txt', 'context': None, 'name': 'x', 'accept': 'text/plain'},
+            {'kind': 'view', 'tag': 'json2', 'context': None, 'name': 'x', 'accept': 'application/json', 'method': 'GET'},
+            {'kind': 'view', 'tag': 'any', 'context': None, 'name': 'x'}]
+    headers = ['application/json', 'text/html, application/json;q=0.5', 'text/plain', None]
+    for init in inits:
+        for reg in regs:
+            for h in headers:
+                for m1 in ('GET', 'POST'):
+                    first = {'name': 'x', 'ctx': 'C', 'method': m1}
+                    if h:
+                        first['accept'] = h
+                    for warm in (True, False):
+                        ops = [{'op': 'get', 'req': first}] if warm else []
+                        ops.append({'op': 'reg', 'reg': reg})
+                        for m2 in ('GET', 'POST'):
+                            q = dict(first, method=m2)
+                            ops.append({'op': 'get', 'req': q})
+                        yield {'init': init, 'ops': ops}
+        yield {'init': init, 'ops': [{'op': 'get', 'req': {'name': 'x', 'ctx': 'C', 'accept': 'application/json'}},
+                                     {'op': 'burst', 'kind': 'accept', 'req': {'name': 'x', 'ctx': 'C'}}]}
+        yield {'init': init, 'ops': [{'op': 'burst', 'kind': 'query', 'req': {'name': 'x', 'ctx': 'C', 'accept': 'text/html'}}]}
 
 
 def enumerate_small(limit_points=None):
@@ -833,6 +1026,10 @@ def features(case, info):
             f.add('registration_after_warmup')
         if t['op'] == 'misses':
             f.add('miss_burst')
+        if t['op'] == 'burst':
+            f.add('odd_burst')
+        if t['op'] == 'get' and t.get('accept_on_multiview'):
+            f.add('accept_header_on_multiview')
     if collisions(trace):
         f.add('key_collision')
     byname = {}
@@ -940,6 +1137,9 @@ def run(ctx):
         cases += small
         exhaustive = True
         notes.append('small-scope enumeration: %d cases (3 initial apps x 5 registrations x 3 URLs x cold/warm x every injection point of the first/second lookup, every registrar pre-emption point)' % len(small))
+        mvc = list(enumerate_multiview())
+        cases += mvc
+        notes.append('multiview enumeration: %d cases (3 multiviews with accept members x 4 registrations (add without/with accept, replace, catch-all) x 4 Accept headers x methods x warm/cold, + odd-request bursts)' % len(mvc))
         ifc = list(enumerate_ifaces(5, 4))
         cases += ifc
         notes.append('request-interface enumeration: %d cases (2 request ifaces x 2 names: all lookup sequences <= 5, all sequences <= 4 with one registration at every position)' % len(ifc))
@@ -947,6 +1147,8 @@ def run(ctx):
         ifc = list(enumerate_ifaces(3, 2))
         longer = list(enumerate_ifaces(4, 3))
         cases += ifc + [longer[i] for i in sorted(rng.sample(range(len(longer)), 60))]
+        mvc = list(enumerate_multiview())
+        cases += [mvc[i] for i in sorted(rng.sample(range(len(mvc)), 70))] + mvc[-2:]
         small = list(enumerate_small(limit_points=['probe', 'write', 0, 4, 7, 8, 13, 29]))
         small = [small[i] for i in sorted(rng.sample(range(len(small)), 120))]
         cases += small
@@ -1144,7 +1346,7 @@ def search(ctx):
     """failing-input search on the implementation only (no model): the small-scope enumeration, then random"""
     viol, n = [], 0
     exhaustive = True
-    gens = itertools.chain(enumerate_ifaces(4, 3), enumerate_small(limit_points=['probe', 'write', 0, 1, 2, 3, 4, 5, 6, 7, 8, 9, 10, 11, 13, 16, 29]),
+    gens = itertools.chain(enumerate_multiview(), enumerate_ifaces(4, 3), enumerate_small(limit_points=['probe', 'write', 0, 1, 2, 3, 4, 5, 6, 7, 8, 9, 10, 11, 13, 16, 29]),
                            (gen_case(ctx.rng) for _ in range(ctx.n(600, 5000))))
     for case in gens:
         n += 1
